@@ -65,6 +65,7 @@ type machine struct {
 	haz    map[string]bool // dynamic hazards of the current call
 	fuel   int
 	usedFP bool // a float ^ was evaluated in this call
+	depth  int
 }
 
 func newMachine(sc *Script) *machine {
@@ -322,6 +323,34 @@ func (m *machine) eval(e *Expr) val {
 		return b2v(!truthy(m.eval(e.A)))
 	case KCast:
 		return m.cast(m.eval(e.A), e.T)
+	case KCall:
+		h := &m.sc.Helpers[e.F]
+		env := map[string]*val{}
+		for i, pa := range h.Params {
+			var v val
+			if i < len(e.Args) {
+				v = m.eval(e.Args[i]) // arguments are evaluated left to right in the caller's scope
+			} else {
+				v = valFromBits(pa.Def.T, pa.Def.V)
+			}
+			if v.T != pa.T {
+				panic(fmt.Sprintf("M-ARC: argument %d of %s has type %s, parameter is %s (generator bug)", i, h.Name, v.T, pa.T))
+			}
+			env[pa.N] = &v
+		}
+		m.depth++
+		if m.depth > 8 {
+			panic(undefined{uFuel})
+		}
+		saved := m.env
+		m.env = env
+		c, r := m.block(h.Body)
+		m.env = saved
+		m.depth--
+		if c != cReturn {
+			panic("M-ARC: helper body fell off the end (generator bug)")
+		}
+		return r
 	case KBin:
 		switch {
 		case e.Op == "and":
